@@ -81,7 +81,8 @@ let handle (line : string) : string =
       (if has_panic then "panic " else "ok ") ^ s
   | [ "rel17scale"; kind; k; want; exact; resp; sg ] ->
       (* the tie of C17_nn_greedy_scale_f64 / C17_ls_deconv_scale_f64 to the cases run: the theorems' executable
-         hypothesis (nn_safe at every grid point, ls_safe over the grid) is EVALUATED on the waveform, response,
+         hypothesis (nn_safe at every grid point, ls_safe over the grid; in the form nn_safe_fast / ls_safe_fast,
+         C17_nn_safe_fast_eq / C17_ls_safe_fast_eq) is EVALUATED on the waveform, response,
          grid and k of the case.  `exact` is the implementation's verdict carried by the case line (1 = every
          sweep of the grid and the entry point scaled bit for bit).  Alarming: hypothesis true and not exact.
          `want` is the generator's claim about the predicate: s = must be true (in-domain waveform, |k| <= 20),
@@ -91,9 +92,9 @@ let handle (line : string) : string =
       let kz = zz_of_string k in
       let nats l = List.map nat_of_int l in
       let safe =
-        ls_safe kz sg resp (nats (irange offlo offhi)) (nats (irange lalo lahi))
+        ls_safe_fast kz sg resp (nats (irange offlo offhi)) (nats (irange lalo lahi))
         && List.for_all
-             (fun off -> List.for_all (fun la -> nn_safe kz sg resp (nat_of_int off) (nat_of_int la)) (irange lalo lahi))
+             (fun off -> List.for_all (fun la -> nn_safe_fast kz sg resp (nat_of_int off) (nat_of_int la)) (irange lalo lahi))
              (irange offlo offhi)
       in
       if (kind <> "w" && kind <> "p") || (exact <> "0" && exact <> "1") then "bad-case-line"
